@@ -380,6 +380,7 @@ where
         // Initialize pointers and validate
         vec.update_pointers()?;
         vec.validate_header()?;
+        vec.validate_extent()?;
 
         Ok(vec)
     }
@@ -804,6 +805,28 @@ where
         let header_ptr = self.header()?;
         let header = unsafe { header_ptr.as_ref() };
         header.validate::<T>()
+    }
+
+    /// Validate that the element storage the header claims lies inside the file.
+    ///
+    /// A corrupted or truncated file may carry a length/capacity far beyond what is on disk;
+    /// accepting it would let `as_slice`/`get` read outside the mapping.
+    fn validate_extent(&self) -> Result<()> {
+        let file_len = Self::backing_file_len(&self.file_path)?;
+        let needed = (self.capacity() as u64)
+            .checked_mul(std::mem::size_of::<T>() as u64)
+            .and_then(|bytes| bytes.checked_add(HEADER_SIZE as u64));
+        match needed {
+            Some(bytes) if bytes <= file_len => Ok(()),
+            _ => Err(ZiporaError::invalid_data("Header capacity exceeds file size")),
+        }
+    }
+
+    /// Current size of the backing file in bytes
+    fn backing_file_len(path: &Path) -> Result<u64> {
+        Ok(std::fs::metadata(path)
+            .map_err(|e| ZiporaError::io_error(&format!("Failed to get file size: {}", e)))?
+            .len())
     }
 
     /// Get header pointer
